@@ -254,6 +254,31 @@ def one_document(ctx, doc, fmts, scratch, fails, model_ops, pending, doc_id):
                     fails.append(Failure("oracle", None, "XML written to different destination kinds does not parse identically (C14N differs)", case0))
             except Exception as e:  # noqa
                 fails.append(Failure("oracle", None, "XML output does not parse: %r" % (e,), case0))
+        # ---- a text *file* object (its own encoding, text already pending in its buffer) is a text stream like any other
+        for enc in ("utf-8", "utf-16"):
+            header = "// written before the document: é\n"
+            p = os.path.join(scratch, "texte-%s-%s.out" % (fmt, enc))
+            try:
+                with open(p, "w", encoding=enc, newline="") as f:
+                    f.write(header)
+                    doc.serialize(f, format=fmt)
+                got = open(p, "rb").read().decode(enc)
+            except Exception as e:  # noqa
+                fails.append(Failure("oracle", None, "serialize to a text file object (%s) raised %r although the returned-string form exists" % (enc, e),
+                                     dict(case0, dest="textfile-" + enc)))
+                continue
+            ctx.evaluations += 1
+            ctx.count("dest:textfile-" + enc)
+            want = written["text"][1]
+            if got == header + want:
+                continue
+            if fmt == "rdf" and got.startswith(header) and trig_blocks(got[len(header):]) == trig_blocks(want):
+                fails.append(Failure("oracle", KNOWN["trig-graph-block-order"], "TriG text differs only in the order of graphs / subjects",
+                                     dict(case0, dest="textfile-" + enc)))
+                continue
+            fails.append(Failure("oracle", None, "a text file object opened as %s, holding a pending header line, does not end up with "
+                                 "header + the text an io.StringIO receives (%d chars vs %d; starts %r)" % (
+                                     enc, len(got), len(header + want), got[:60]), dict(case0, dest="textfile-" + enc)))
         if fmt == "provn":
             continue
         # ---- what each format's reader makes of each distinct text (tables for the model; discriminability)
